@@ -7,7 +7,7 @@ def rd(p): return open(os.path.join(V, p)).read()
 
 FOUNDBY = {
  'F1': 'reading', 'F2': 'reading, then rule A7 (identity table)', 'F3': 'reading', 'F4': 'reading', 'F5a': 'reading', 'F5b': 'reading', 'F5c': 'reading',
- 'F6': 'reading (sibling of DeclFunc without roll-back)', 'F7': 'reading', 'F8': 'reading', 'F9a': 'reading / design spike; rule T5', 'F9c': 'design spike; rule T3', 'F9d': 'rule T5 (table agreement)',
+ 'F6': 'reading (sibling of DeclFunc without roll-back)', 'F7': 'reading', 'F8': 'reading', 'F9a': 'reading / design spike; rule T5', 'F9b': 'design spike; rule T3 in the 32-bit configuration of the thorough tier (listed late: the thorough tier of C31 had not been re-run after the configurations were added)', 'F9c': 'design spike; rule T3', 'F9d': 'rule T5 (table agreement)',
  'F10': 'reading', 'F11': 'reading', 'F12': 'reading (sibling arms)', 'F13': 'reading (sibling arms)', 'F14': 'reading (dead code); rule A5-complete reports it',
  'F15': 'rule A4b (Ints guard)', 'F16': 'rule A4 (storage)', 'F17': 'rule (mirror/identity use)', 'F18': 'reading while writing rule B1; rule B1-signature reports it',
  'F19': 'sub-agent (C03)', 'F21': 'sub-agent (C03)', 'F22': 'reading while writing the C36 rules', 'F23': 'reading while writing the C36 rules',
